@@ -25,7 +25,8 @@ META = {
         "components it consumed (every component is emitted once); the depth "
         "truncation acts on the standardised list, not before it; qq_depth "
         "overrides min/max."
-        ' Also: the stability test of the standardisation loop spans all passes of an iteration (no late snapshot); conditional constant propagation decides, for all 16 given/omitted combinations, that a depth keyword reaches the parser as given; clean chains in any order are in aliquot_unpacker_regex; option forwarding (dead / swapped / default-mismatched parameters).'),
+        ' Also: the stability test of the standardisation loop spans all passes of an iteration (no late snapshot); conditional constant propagation decides, for all 16 given/omitted combinations, that a depth keyword reaches the parser as given; clean chains in any order are in aliquot_unpacker_regex; option forwarding (dead / swapped / default-mismatched parameters).'
+        ' Round 7: the fix-point test watches the list, not its length; joiners across a line break; parse()/preprocess() store no configurable setting (depth given for one call does not leak into the next).'),
     'families': ['TBL', 'FIXPOINT', 'CONSUME', 'ORDER', 'FORWARD', 'DEADPARAM', 'SIB-DEFAULTS'],
 }
 
